@@ -25,6 +25,7 @@ type SI struct {
 	HasExtra bool
 	Parent   *SI
 	Kids     []*SI // children in index order (index slabs) or reference order (data slabs)
+	NestedGroup bool // external collision group of a map that is INLINED in the parent slab (not of the slab's own map)
 	Count    uint64
 }
 
@@ -135,42 +136,11 @@ func (w *Walk) visit(id atree.SlabID, parent *SI, viaIndex bool) (*SI, error) {
 			}
 		}
 	case kMapData, kCollGroup:
-		items := s.ChildStorables()
-		for i := 0; i < len(items); {
-			if ref, ok := items[i].(atree.SlabIDStorable); ok {
-				// either an external collision group (one item) or an externalised key (then a value follows)
-				t, found, err := w.st.Retrieve(atree.SlabID(ref))
-				if err != nil {
-					return nil, fmt.Errorf("retrieving slab %s failed: %v", atree.SlabID(ref), err)
-				}
-				if !found {
-					return nil, fmt.Errorf("dangling reference: slab %s (referenced from %s) is not in storage", atree.SlabID(ref), id)
-				}
-				if md, isMap := t.(*atree.MapDataSlab); isMap && md.ExtraData() == nil {
-					if _, err := w.visit(atree.SlabID(ref), si, false); err != nil {
-						return nil, err
-					}
-					i++
-					continue
-				}
-			}
-			if i+1 >= len(items) {
-				return nil, fmt.Errorf("map data slab %s: key without value among its child storables", id)
-			}
-			k, v := items[i], items[i+1]
-			if err := w.element(si, k, 0); err != nil {
-				return nil, err
-			}
-			limit := uint32(0)
-			if w.maxMapElem > k.ByteSize()+1 {
-				limit = w.maxMapElem - k.ByteSize() - 1
-			}
-			if err := w.element(si, v, limit); err != nil {
-				return nil, err
-			}
-			si.Count++
-			i += 2
+		n, err := w.mapItems(si, s.ChildStorables(), false)
+		if err != nil {
+			return nil, err
 		}
+		si.Count += n
 	case kStorable:
 		for _, el := range s.ChildStorables() {
 			if err := w.element(si, el, 0); err != nil {
@@ -179,6 +149,50 @@ func (w *Walk) visit(id atree.SlabID, parent *SI, viaIndex bool) (*SI, error) {
 		}
 	}
 	return si, nil
+}
+
+// mapItems walks the flattened child storables of a map data slab or of an inlined map: key/value pairs,
+// with an external collision group appearing as a single slab reference.  Returns the number of pairs.
+func (w *Walk) mapItems(owner *SI, items []atree.Storable, nested bool) (uint64, error) {
+	n := uint64(0)
+	for i := 0; i < len(items); {
+		if ref, ok := items[i].(atree.SlabIDStorable); ok {
+			// either an external collision group (one item) or an externalised key (then a value follows)
+			t, found, err := w.st.Retrieve(atree.SlabID(ref))
+			if err != nil {
+				return 0, fmt.Errorf("retrieving slab %s failed: %v", atree.SlabID(ref), err)
+			}
+			if !found {
+				return 0, fmt.Errorf("dangling reference: slab %s (referenced from %s) is not in storage", atree.SlabID(ref), owner.ID)
+			}
+			if md, isMap := t.(*atree.MapDataSlab); isMap && md.ExtraData() == nil {
+				g, err := w.visit(atree.SlabID(ref), owner, false)
+				if err != nil {
+					return 0, err
+				}
+				g.NestedGroup = nested
+				i++
+				continue
+			}
+		}
+		if i+1 >= len(items) {
+			return 0, fmt.Errorf("map slab %s: key without value among its child storables", owner.ID)
+		}
+		k, v := items[i], items[i+1]
+		if err := w.element(owner, k, 0); err != nil {
+			return 0, err
+		}
+		limit := uint32(0)
+		if w.maxMapElem > k.ByteSize()+1 {
+			limit = w.maxMapElem - k.ByteSize() - 1
+		}
+		if err := w.element(owner, v, limit); err != nil {
+			return 0, err
+		}
+		n++
+		i += 2
+	}
+	return n, nil
 }
 
 // element follows the references inside one element storable (wrappers, inlined slabs).
@@ -229,17 +243,8 @@ func (w *Walk) element(owner *SI, el atree.Storable, slotLimit uint32) error {
 				}
 			}
 		} else {
-			for i := 0; i+1 < len(items); i += 2 {
-				if err := w.element(owner, items[i], 0); err != nil {
-					return err
-				}
-				l := uint32(0)
-				if w.maxMapElem > items[i].ByteSize()+1 {
-					l = w.maxMapElem - items[i].ByteSize() - 1
-				}
-				if err := w.element(owner, items[i+1], l); err != nil {
-					return err
-				}
+			if _, err := w.mapItems(owner, items, true); err != nil {
+				return err
 			}
 		}
 	}
@@ -526,10 +531,12 @@ func deepEqual(a, b atree.Storable, relaxed bool) error {
 			return fmt.Errorf("inlined slab %s size %d vs %d", as.SlabID(), as.ByteSize(), bs.ByteSize())
 		}
 		ca, cb := as.ChildStorables(), bs.ChildStorables()
-		if relaxed && ka == kMapData {
+		err := listEqual(ca, cb, relaxed)
+		if err != nil && relaxed && ka == kMapData {
+			// compact composite maps may come back in the shared order of their type: compare as a set of pairs
 			return pairsEqualAsSet(ca, cb)
 		}
-		return listEqual(ca, cb, relaxed)
+		return err
 	}
 	if wa, ok := a.(SomeSt); ok {
 		wb, ok := b.(SomeSt)
